@@ -138,6 +138,36 @@ InsRefs(refs, p) ==
 Tokens(r, refs) == [i \in 1..Len(r) |-> <<r[i]>> \o [k \in 1..Len(refs[i]) |-> r[refs[i][k]]]]
 
 ---------------------------------------------------------------------------
+\* PART 3: the ID scale -- large and boundary IDs
+\*
+\* A metadata ID is any 32-bit unsigned number for LLVM (an int64 for the library).  The laws
+\* above depend only on the order of the IDs and on which naturals are small: they are
+\* invariant under every strictly increasing map that is the identity on the small numbers.
+\* TLC's integers end at 2^31 - 1, so the specification works with MODEL IDs:
+\*   m < WideBase          stands for the concrete ID m itself;
+\*   m = WideBase + i      stands for the concrete ID whose decimal digits are WideIds[i + 1]
+\*                         (2^31 - 2 .. 2^32 - 1: around the end of int32 and of uint32).
+\* Concrete(m) is the decimal text of the ID that is printed / written; the generators emit the
+\* table (WideTable) with their vectors, the harness builds modules and texts with the concrete
+\* IDs and maps every ID it reads back into model IDs before a row is judged (a concrete ID
+\* that no model ID stands for is recorded as Unmapped and fails `unique`).
+\* Landmarks: where a table, a cast or a cache of an ID printer / parser may end -- the powers
+\* of two and of ten with their neighbours.
+WideBase  == 1610612736      \* 2^30 + 2^29: above every native landmark
+WideIds   == <<"2147483646", "2147483647", "2147483648", "2147483649", "4294967294", "4294967295">>
+WideTable == [i \in 1..Len(WideIds) |-> [m |-> WideBase + i - 1, txt |-> WideIds[i]]]
+Unmapped  == -9
+Concrete(m) == IF m < WideBase THEN ToString(m) ELSE WideIds[m - WideBase + 1]
+
+NativeLandmarks == {2^k + d : k \in 1..30, d \in -1..1} \cup {10^k + d : k \in 1..9, d \in -1..1}
+WideLandmarks   == {WideBase + i - 1 : i \in 1..Len(WideIds)}
+Landmarks       == NativeLandmarks \cup WideLandmarks
+\* the landmarks around 2^k (k = 31, 32: the wide ones), increasing; used for sparse module texts
+AroundPow(k) == CASE k <= 30 -> <<2^k - 1, 2^k, 2^k + 1, 2^k + 2>>
+                  [] k = 31  -> <<WideBase, WideBase + 1, WideBase + 2, WideBase + 3>>
+                  [] OTHER   -> <<WideBase + 1, WideBase + 3, WideBase + 4, WideBase + 5>>
+
+---------------------------------------------------------------------------
 \* the enumerating state machine
 
 Init == ids = <<>> /\ shape = 0 /\ stage = "build"
